@@ -524,6 +524,17 @@ func units(tier string) []engine.Unit {
 			func() any { return classOf(col.Set[string](N()).MakeFromArray([]string{"b"})) }}, nil),
 		firstUse("Array[int] via List.Make twice", []func() any{func() any { return col.List[int](N()).Make().GetClass() }, func() any { return col.List[int](N()).Make().GetClass() }}, [][2]int{{0, 1}}),
 	)
+	// the programs about first uses, derived instances and long sorts are few and short on the current tree: they go
+	// first, so that a change of the library that makes every script pair slower cannot use up the budget before them
+	var head, tail []engine.Unit
+	for _, u := range us {
+		if strings.HasPrefix(u.Name, "first-use") || strings.HasPrefix(u.Name, "long sort") || strings.HasPrefix(u.Name, "derived") {
+			head = append(head, u)
+		} else {
+			tail = append(tail, u)
+		}
+	}
+	us = append(head, tail...)
 	return us
 }
 
@@ -538,7 +549,7 @@ func init() {
 			if tier == "thorough" {
 				return 25 * time.Minute
 			}
-			return 3 * time.Minute
+			return 5 * time.Minute
 		},
 		Units: units,
 	})
